@@ -28,7 +28,7 @@ def build(rng, tier):
         mts = g.structures()
         allsegs = sorted(n for n in g.lib.SEGMENTS if n not in ('MSH', 'ANYHL7SEGMENT'))
         for mt in rng.sample(mts, min(len(mts), per)):
-            for style in ('plain', 'foreign', 'zseg', 'repeat', 'overflow', 'shuffle', 'blank', 'delims'):
+            for style in ('plain', 'foreign', 'zseg', 'repeat', 'overflow', 'shuffle', 'blank', 'delims', 'ctrl'):
                 try:
                     t, der, names = g.message(mt, 'random', rich=False)
                 except Exception:  # noqa
@@ -53,6 +53,11 @@ def build(rng, tier):
                         lines.append(g.zsegment(n))
                     else:
                         lines.append(n + '|1')
+                if style == 'ctrl' and len(lines) > 1:
+                    # a character that some line splitters take for a line end (LF VT FF FS GS RS NEL LS PS) strictly inside a value:
+                    # only CR ends a segment (seed C03-j split the message with splitlines())
+                    k = rng.randrange(1, len(lines))
+                    lines[k] = lines[k] + '|a' + rng.choice(['\n', '\x0b', '\x0c', '\x1c', '\x1d', '\x1e', '\x85', '\u2028', '\u2029']) + 'b'
                 if style == 'blank':
                     # empty lines between segments (and after the last one) carry no content: nothing after them may be lost
                     for _ in range(rng.randint(1, 2)):
@@ -120,7 +125,7 @@ def run(tier, seed):
                 break
     chk.dist['result_kinds'] = kinds
     chk.dist['messages'] = len(msgs)
-    chk.rule = ('per version, instances of random message structures in eight styles: as derived; with 1-2 segments of other message types inserted; with a Z-segment; '
+    chk.rule = ('per version, instances of random message structures in nine styles: as derived; with 1-2 segments of other message types inserted; with a Z-segment; '
                 'with a repeated segment; with fields/components beyond the defined count; with two segments swapped; with empty lines between segments; the overflow style spelled with a random other delimiter set. Each parsed with find_groups on and off under '
                 'TOLERANT. Non-trivial = distinct (text, find_groups) whose encoding keeps all segments in order.')
     chk.samples = [{'version': v, 'structure': mt, 'style': st, 'text': t[:160]} for (v, mt, st, t, ch) in msgs[::max(1, len(msgs) // 8)]][:8]
